@@ -141,17 +141,58 @@ def _(c):
     def isolated(f):
         """The processor works on a deep copy: no mutable object of its state is shared with the live handlers, the copy
         is structurally equal, and the live state is not written."""
-        from pyvc.heap import struct_eq
         mine = f.self.gcodeHandlers
         live = f.a.gcodeHandlers
+        if getattr(f, "native", False):
+            from pyvc.native import describe
+            shared = reachable_mutable(mine.state) & reachable_mutable(live.state)
+            return (mine is not live and mine.state is not live.state and len(shared) == 0
+                    and describe(mine.state) == describe(live.state) and mine.gcodeParser is not live.gcodeParser
+                    and describe(live) == describe(f.old.a.gcodeHandlers))
+        from pyvc.heap import struct_eq
         shared = reachable_mutable(mine.state) & reachable_mutable(live.state)
         return And(mine is not live, mine.state is not live.state, len(shared) == 0,
                    struct_eq(mine.state, live.state), mine.gcodeParser is not live.gcodeParser, f.unchanged_except_self())
     c.ensures("C20.state-is-a-disjoint-copy", isolated, props=("C20",))
 
 
+def _native_reachable_mutable(root):
+    """Native replay: ids of the mutable objects (instances, lists, dicts, sets) reachable from a real object.  Loggers and
+    mocks (shared by design: copy.deepcopy returns the same logger), classes, modules, functions and compiled patterns do
+    not count."""
+    import types
+    import re as _re
+    seen, out, stack = set(), set(), [root]
+    skip_mods = ("logging", "unittest.mock", "mock")
+    while stack:
+        v = stack.pop()
+        if id(v) in seen or v is None or isinstance(v, (str, bytes, int, float, bool, complex, frozenset, type, types.ModuleType,
+                                                        types.FunctionType, types.MethodType, types.BuiltinFunctionType, _re.Pattern)):
+            continue
+        seen.add(id(v))
+        if (type(v).__module__ or "").split(".")[0] in ("logging", "mock") or (type(v).__module__ or "") in skip_mods:
+            continue
+        if isinstance(v, dict):
+            out.add(id(v))
+            stack.extend(v.values())
+        elif isinstance(v, (list, set)):
+            out.add(id(v))
+            stack.extend(v)
+        elif isinstance(v, tuple):
+            stack.extend(v)
+        elif hasattr(v, "__dict__"):
+            out.add(id(v))
+            stack.extend(vars(v).values())
+    return out
+
+
 def reachable_mutable(root):
-    from pyvc.values import Obj, PyList, PyDict, OptObj, Model
+    try:
+        from pyvc.values import Obj, PyList, PyDict, OptObj, Model
+    except ImportError:         # native replay runs without z3
+        return _native_reachable_mutable(root)
+    if not isinstance(root, (Obj, PyList, PyDict, OptObj, Model)):
+        return _native_reachable_mutable(root)
     seen, out, stack = set(), set(), [root]
     while stack:
         v = stack.pop()
